@@ -478,6 +478,43 @@ impl<'a> Gen<'a> {
                 });
             }
         }
+        // more conjuncts on the key: a second lower / upper bound, an equality next to a range
+        // (agreeing with it or contradicting it)
+        if self.rng.chance(1, 4) {
+            for _ in 0..(1 + self.rng.usize(2)) {
+                let op = *self.rng.pick(&[Cmp::Eq, Cmp::Lt, Cmp::Le, Cmp::Gt, Cmp::Ge]);
+                let val = pick_key(self);
+                atoms.push(Atom::Cmp { col: c.name.clone(), op, val });
+            }
+            // in any order
+            for i in (1..atoms.len()).rev() {
+                let j = self.rng.usize(i + 1);
+                atoms.swap(i, j);
+            }
+        }
+        // constants of another type than an integer key: beyond its range, fractional, NULL
+        if matches!(c.ty, Ty::Int | Ty::SmallInt) && self.rng.chance(1, 8) {
+            let i = self.rng.usize(atoms.len());
+            if let Atom::Cmp { val, .. } = &mut atoms[i] {
+                *val = match self.rng.usize(5) {
+                    0 => Val::Int(5_000_000_000),
+                    1 => Val::Int(-5_000_000_000),
+                    2 => Val::Null,
+                    _ => match &*val {
+                        Val::Int(k) => Val::F(*k as f64 + 0.5),
+                        _ => Val::F(2.5),
+                    },
+                };
+            }
+        }
+        // the constant written first (`5 < k`)
+        for a in atoms.iter_mut() {
+            if self.rng.chance(1, 5) {
+                if let Atom::Cmp { col, op, val } = a.clone() {
+                    *a = Atom::CmpFlipped { col, op, val };
+                }
+            }
+        }
         // residual predicate on another column
         if def.cols.len() > 1 && self.rng.chance(1, 2) {
             let mut ci = self.rng.usize(def.cols.len());
@@ -543,7 +580,10 @@ impl<'a> Gen<'a> {
             if !alias.is_empty() {
                 for a in p.0.iter_mut() {
                     match a {
-                        Atom::Cmp { col, .. } | Atom::IsNull { col } | Atom::IsNotNull { col } => {
+                        Atom::Cmp { col, .. }
+                        | Atom::CmpFlipped { col, .. }
+                        | Atom::IsNull { col }
+                        | Atom::IsNotNull { col } => {
                             *col = format!("{alias}.{col}");
                         }
                     }
